@@ -290,7 +290,18 @@ class Program:
                     else:
                         params.append(f"{f['name']}: T{k}_{i}")
                 body = "{" + ", ".join(f"'{f['name']}': {f['name']}" for f in decl["fields"]) + "}"
-                src = f"def raw{k}({', '.join(params)}):\n    HOLD.append({body})\n"
+                fkind = decl.get("fkind", "sync")
+                ret = decl.get("ret") if fkind in ("sync", "async") else None
+                head = "async def" if fkind in ("async", "agen") else "def"
+                ann = ""
+                tail = ""
+                if ret:
+                    ns[f"TR{k}"] = mk_type(ret["ty"], k)
+                    ann = f" -> TR{k}"
+                    tail = f"    return {ret['field']}\n"
+                if fkind in ("gen", "agen"):
+                    tail = "    yield 1\n"
+                src = f"{head} raw{k}({', '.join(params)}){ann}:\n    HOLD.append({body})\n{tail}"
                 exec(src, ns)
                 raw = ns[f"raw{k}"]
                 ws = []
@@ -298,8 +309,10 @@ class Program:
                     if only_wrapper is not None and only_wrapper != (k, j):
                         ws.append(None)
                         continue
-                    opts = Options(**od) if od else None
-                    ws.append(utype.parse(raw, options=opts) if opts else utype.parse(raw))
+                    kwo = {"eager": True} if decl.get("eager") else {}
+                    if od:
+                        kwo["options"] = Options(**od)
+                    ws.append(utype.parse(raw, **kwo))
                 self.classes.append(ws)
             else:
                 raise ValueError(kind)
@@ -319,11 +332,25 @@ class Program:
             names = [fl["name"] for fl in decl["fields"]]
             pos = [inp[n] for n in names[:npos]] if npos and all(n in inp for n in names[:npos]) else []
             kw = {a: b for a, b in inp.items() if not (pos and a in names[:npos])}
-            f(*pos, **kw)
+            fkind = decl.get("fkind", "sync")
+            if fkind == "sync":
+                f(*pos, **kw)
+            elif fkind == "gen":
+                list(f(*pos, **kw))
+            else:
+                import asyncio
+
+                async def consume():
+                    if fkind == "async":
+                        return await f(*pos, **kw)
+                    return [x async for x in f(*pos, **kw)]
+                asyncio.run(consume())
             if len(self.hold) != n0 + 1:
                 raise RuntimeError("body did not run exactly once")
             return self.hold[-1]
         cls = self.classes[k]
+        if style == "poskw":           # input is the pair (positional dict, keyword arguments)
+            return cls(inp[0], **inp[1])
         if style == "pos":
             return cls(inp)
         if style == "from":
@@ -338,13 +365,16 @@ def classify_exc(e):
     return "esc:" + type(e).__name__
 
 
-def run_program(case, only_last=False, only_wrapper=None):
-    """execute the history; returns outs, roots(objects), input_changed, program"""
+def run_program(case, only_last=False, only_wrapper=None, only_op=None, post=None):
+    """execute the history; returns outs, roots(objects), input_changed, program.
+    `post`: dict filled with op index -> value view of the result right after the call."""
     prog = Program(case, only_wrapper=only_wrapper)
     roots, outs, changed = [], [], []
     ops = case["ops"]
     if only_last:
         ops = [ops[-1]]
+    if only_op is not None:
+        ops = [ops[only_op]]
     try:
         for i, op in enumerate(ops):
             kind = op["op"]
@@ -360,6 +390,8 @@ def run_program(case, only_last=False, only_wrapper=None):
                 after = observe([inp])
                 if before != after:
                     changed.append(i)
+                if post is not None:
+                    post[i] = [outs[-1], erase(observe([res])[0])]
                 roots.append(inp)
                 roots.append(res)
             elif kind == "mutate":
@@ -412,11 +444,27 @@ def strip_cls(t):
     return t
 
 
+def _wrapper_of(case, op):
+    return (op["target"], op.get("wrapper", 0)) if case["env"][op["target"]]["kind"] == "func" else None
+
+
 def impl(case):
-    outs, roots, changed, prog = run_program(case)
+    post = {}
+    outs, roots, changed, prog = run_program(case, post=post)
     snap = observe(list(prog.defaults) + roots)
     nd = len(prog.defaults)
     res = {"outs": outs, "defaults": snap[:nd], "roots": snap[nd:], "input_changed": changed}
+    # every call that does not refer to earlier roots is replayed alone on freshly built declarations:
+    # same outcome, same value — whatever happened before it in the history (failed calls included)
+    res["replayed"] = 0
+    res["replay_mismatch"] = []
+    for i, op in enumerate(case["ops"][:-1]):
+        if op["op"] == "call" and '"root"' not in json.dumps(op["input"]):
+            p1 = {}
+            run_program(case, only_op=i, only_wrapper=_wrapper_of(case, op), post=p1)
+            res["replayed"] += 1
+            if p1.get(0) != post.get(i):
+                res["replay_mismatch"].append([i, post.get(i), p1.get(0)])
     # the probe (last call) on freshly built declarations in this process ...
     last = case["ops"][-1]
     if last["op"] == "call" and '"root"' not in json.dumps(last["input"]):     # a probe must not refer to earlier roots
@@ -493,7 +541,8 @@ def spec_check(case, io):
         field *values* but must not share the instance's own attribute dict;
     (d) the declared default objects are unchanged at the end of the history (the history only mutates objects
         reached through results);
-    (e) the probe's outcome and value equal those on freshly built declarations and in a fresh interpreter.
+    (e) every call without references to earlier roots — after failed or successful calls alike — gives the same
+        outcome and value when replayed alone on freshly built declarations; the probe also in a fresh interpreter.
     """
     if "outs" not in io:
         return f"program did not complete: {io}"
@@ -561,6 +610,9 @@ def spec_check(case, io):
     if got != want:
         return "(d) a declared default object changed value during the history"
     # (e) history independence
+    for i, here, alone in io.get("replay_mismatch", []):
+        return (f"(e) call #{i} gives {here[0] if here else None} after the history but {alone[0] if alone else None} "
+                f"(or a different value) when it is the only call on freshly built declarations")
     if "probe" in io:
         if io["probe"] != io["fresh_decl"]:
             return f"(e) probe after the history gives {io['probe'][0]} / a different value than on freshly built declarations ({io['fresh_decl'][0]})"
@@ -842,6 +894,13 @@ def g_case(rng, maxops=7, p_fresh=0.03):
         decl = {"kind": kind, "dfs": rng.choice([None, None, True, False]), "fields": fields}
         if kind == "func":
             decl["dfs"] = None
+            decl["fkind"] = rng.choice(["sync", "sync", "async", "async", "gen", "agen"])
+            decl["eager"] = decl["fkind"] != "sync" and rng.random() < 0.35
+            if decl["fkind"] in ("sync", "async") and rng.random() < 0.4:
+                rf = rng.choice(fields)
+                decl["ret"] = {"field": rf["name"],
+                               "ty": rf["ty"] if rng.random() < 0.5 else rng.choice(["int", "any", {"bare": "list"}, {"seq": "list", "of": "int"}, {"opt": "int"}])}
+                decl["ret"]["ty"] = _drop_ref(fix_set_of(decl["ret"]["ty"]), k)
             decl["wrappers"] = rng.choice([[None], [None], [None], [{"no_explicit_cast": True}], [None, None],
                                            [{"no_explicit_cast": True}, {"no_explicit_cast": True}],
                                            [None, {"no_explicit_cast": True}], [{"no_explicit_cast": True}, None]])
@@ -863,7 +922,9 @@ def g_case(rng, maxops=7, p_fresh=0.03):
             k = nenv - 1 if rng.random() < 0.8 else rng.randrange(nenv)
             if env[k]["kind"] == "func" and k != nenv - 1:
                 k = nenv - 1
-            inp = g_input(rng, env, k, junk=0.06 if not last else 0.03)
+            isf = env[k]["kind"] == "func"
+            inp = g_input(rng, env, k, junk=(0.18 if isf else 0.06) if not last else 0.03)
+            shape = inp
             if not last and results and rng.random() < 0.12:
                 # pass an earlier root (or a part of it) back in
                 src = rng.choice(results)
@@ -874,17 +935,36 @@ def g_case(rng, maxops=7, p_fresh=0.03):
                 else:
                     inp["keys"].append(f["name"])
                     inp["items"].append(ref)
-            elif not last and input_roots and rng.random() < 0.05:
-                inp = {"root": rng.choice(input_roots), "path": []}      # the very same input dict again
-            op = {"op": "call", "target": k, "style": rng.choice(["kw", "kw", "pos", "from"]), "input": inp}
-            if env[k]["kind"] == "func":
+            elif not last and input_roots and rng.random() < 0.08:
+                inp = dict(rng.choice(input_roots))      # the very same input dict again
+                shape = inp
+            op = {"op": "call", "target": k, "style": rng.choice(["kw", "kw", "pos", "from", "poskw", "poskw"]), "input": inp}
+            if isf:
                 op["style"] = "kw"
                 op["wrapper"] = rng.randrange(len(env[k]["wrappers"]))
                 op["pos"] = rng.choice([0, 0, 1, 2])
+            elif op["style"] == "poskw" and "keys" not in inp:
+                op["style"] = "pos"
+            elif op["style"] == "poskw":
+                # `Cls(d, **kw)`: split the entries between a positional dict and keyword arguments
+                # (sometimes with a key in both: the dict's entry wins)
+                if "keys" not in inp:
+                    inp = node("dict", [], [])
+                dk, di, kk, ki = [], [], [], []
+                for key, item in zip(inp["keys"], inp["items"]):
+                    if rng.random() < 0.5:
+                        dk.append(key); di.append(item)
+                    else:
+                        kk.append(key); ki.append(item)
+                if dk and rng.random() < 0.2:
+                    kk.append(dk[0]); ki.append(g_atom(rng))
+                op["input"] = node("tuple", [node("dict", di, dk), node("dict", ki, kk)])
             ops.append(op)
-            results.append((nroots + 1, k, inp))
-            if "keys" in inp:
-                input_roots.append(nroots)
+            results.append((nroots + 1, k, shape))
+            if op["input"].get("k") == "dict":
+                input_roots.append({"root": nroots, "path": []})
+            elif op["style"] == "poskw":
+                input_roots.append({"root": nroots, "path": [0]})
             nroots += 2
         elif r < 0.85:
             src = rng.choice(results)
@@ -1011,11 +1091,12 @@ class C19(Check):
     driver = "C19"
     impl = "harness.c19:impl"
     case_timeout = 25.0
-    rule = ("programs = 1-3 declarations (Schema / DataClass / @utype.parse function; 1-4 fields typed Any, int, bare or "
+    rule = ("programs = 1-3 declarations (Schema / DataClass / @utype.parse function: plain, async def, generator, async "
+            "generator, lazy or eager, optionally with a parsed return annotation; 1-4 fields typed Any, int, bare or "
             "parametrised list/tuple/set/frozenset/dict, fixed tuples, Optional, nested/self/forward-referenced data classes; "
             "defaults given plainly, via Field(default=), via a factory returning one shared object or a new one, nested "
             "list/set/tuple/dict with internal sharing and opaque bytearray/deque) + a history of 2-7 (quick) / 2-12 "
-            "(thorough) operations: parses that succeed or fail (kw / positional dict / __from__ / positional args), in-place "
+            "(thorough) operations: parses that succeed or fail (kw / positional dict / positional dict + keyword arguments / __from__ / positional args), in-place "
             "mutation of objects reached through results, setattr, Schema.copy(), earlier roots passed back in as inputs, "
             "ending in a probe parse that is replayed on freshly built declarations (every case) and in a fresh interpreter "
             "(a sample).  non-trivial = at least one successful parse filled a mutable default or returned a container; "
@@ -1024,7 +1105,7 @@ class C19(Check):
                    "list/set/dict/instance/__dict__/bytearray/deque objects carry identity labels",
                    "the registry cache (C16) and lazy forward-reference state are covered by the fresh-declaration and "
                    "fresh-interpreter replays only (not modelled in Lean here)"]
-    budget = {"quick": 6000, "thorough": 40000}
+    budget = {"quick": 4000, "thorough": 30000}
     search_budget = {"quick": 1500, "thorough": 12000}
 
     def cases(self, tier, rng, n):
@@ -1065,7 +1146,9 @@ class C19(Check):
 
     def classify(self, case, io, why):
         if why.startswith("(e)"):
-            last = case["ops"][-1]
+            import re
+            m = re.match(r"\(e\) call #(\d+) ", why)
+            last = case["ops"][int(m.group(1))] if m else case["ops"][-1]
             d = case["env"][last["target"]]
             if d["kind"] == "func":
                 ws = d.get("wrappers") or [None]
@@ -1117,6 +1200,8 @@ class C19(Check):
                 st["unmodelled"][mo["unmodelled"]] = st["unmodelled"].get(mo["unmodelled"], 0) + 1
             if isinstance(io, dict) and "fresh_interp" in io:
                 st["fresh_interpreter_replays"] += 1
+            if isinstance(io, dict):
+                st["replayed"] = st.get("replayed", 0) + io.get("replayed", 0)
             for op, o in zip(c["ops"], (io or {}).get("outs", [])):
                 k = f"{op['op']}:{o}"
                 st["ops"][k] = st["ops"].get(k, 0) + 1
@@ -1151,7 +1236,7 @@ class C19(Check):
             ev["coverage"]["outside_modelled_fragment"] = {"cases": st["unmodelled_cases"], "of": st["cases"],
                                                            "reasons": st["unmodelled"]}
             ev["coverage"]["fresh_interpreter_replays"] = st["fresh_interpreter_replays"]
-            ev["coverage"]["fresh_declaration_replays"] = st["cases"]
+            ev["coverage"]["fresh_declaration_replays"] = st["cases"] + st.get("replayed", 0)
 
 
 CHECK = C19()
